@@ -1178,6 +1178,15 @@ func genSched(r *Rand, g GenCfg) Plan {
 		if r.Chance(0.5) {
 			d.Pol = genPolicy(r, argv, r.Range(0, 4))
 		}
+		if len(argv) >= 2 && r.Chance(0.35) {
+			// statements that walk the ROOT of the arguments (every argument in turn): whatever
+			// they evaluate to, they evaluate to the same thing every time
+			d.Pol = append(d.Pol, Pick(r, []Stmt{
+				{Op: "or", Kids: []Stmt{{Op: "any", Sel: ".[]", Kids: []Stmt{{Op: "==", Sel: ".x", Val: ptr(vInt(int64(r.Intn(9))))}}}, {Op: "==", Sel: ".zz?", Val: ptr(vInt(1))}}},
+				{Op: "or", Kids: []Stmt{{Op: "any", Sel: ".[]", Kids: []Stmt{{Op: "==", Sel: ".y", Val: ptr(vStr("q"))}}}, {Op: "==", Sel: ".zz?", Val: ptr(vInt(1))}}},
+				{Op: "or", Kids: []Stmt{{Op: "all", Sel: ".[]", Kids: []Stmt{{Op: "==", Sel: ".[0]?", Val: ptr(vInt(1))}}}, {Op: "==", Sel: ".zz?", Val: ptr(vInt(1))}}},
+			}))
+		}
 		d.PolSpare = r.Chance(0.4)
 		if r.Chance(0.4) {
 			d.Exp = &far
